@@ -4,3 +4,5 @@ import CanVerif.Props.C17
 import CanVerif.Props.C08
 import CanVerif.Props.C06
 import CanVerif.Props.C07
+import CanVerif.Props.C15
+import CanVerif.Props.C16
